@@ -728,6 +728,23 @@ def gen(ch, tier):
     case = {"entry": entry, "fluents": fl, "digits": digits}
     if ch.flag(0.2):
         case["history"] = True
+    sd = ch.side("integer-quotient")
+    if entry != "print" and sd.flag(0.1):
+        # integers only, divided by an integer that does not divide them: the coefficients are exact fractions with an
+        # integer part (7/3, 400/3), printed at the requested decimals
+        q = sd.choice(["3", "7", "6", "9", "11", "13"])
+        num = gen_poly(sd, terms, 1, "int", sd.int(1, 2))
+        e = sd.choice([["/", num, q], ["/", ["*", sd.choice(["7", "22", "10", "100", "-25"]), list(sd.choice(terms))], q]])
+        if sd.flag(0.5):
+            case["digits"] = sd.choice([1, 2, 2, 3])
+        if entry == "expr":
+            case["expr"] = e
+        elif entry == "eq":
+            case["conds"] = [["=", ["*", q, list(sd.choice(terms))], sd.choice(["400", "100", "-50", "7", "1000"])]] if sd.flag(0.5) \
+                else [["=", e, sd.choice(["4", "10", "-2"])]]
+        else:
+            case["conds"] = [[sd.choice(["<", "<=", ">", ">="]), e, sd.choice(["4", "10", "-2", "25"])]]
+        return case
     rhs = (lambda: gen_coef(ch, cls) if ch.flag(0.5) else gen_poly(ch, terms, 1, cls, 1))
     if entry == "expr":
         case["expr"] = side()
